@@ -166,8 +166,20 @@ DIGIT_LOOKALIKES = ["\uff12\uff10\uff10\uff11-01-01", "1\uff12:00", "12:0\u0663:
                     "2001-\u0660\u0661-01", "\u0967\u0968", "1\u0967e5", "\u00bd", "\u2460", "23:59:6\u0660", "\uff0b5", "\u22125"]
 
 
+# Words made of characters that Python takes for white space (str.isspace,
+# str.split) but that are ordinary characters of the dialect: U+00A0 is in the
+# PVL / ISIS character set and is not one of PVL's white-space characters; the
+# permissive grammar admits them all.
+SPACE_LOOKALIKES = {"PVL": ["\xa0", "\xa0\xa0", "x\xa0"], "ISIS": ["\xa0", "\xa0x"],
+                    "default": ["\xa0", "\u2003", "\x1c", "\x85", "\u3000\u2003",
+                                "\x1f\x1e", "\u2028"]}
+
+
 def sv_unquoted(rng, reader):
     pool = WORDS if reader in ("ODL", "PDS3") else PVL_WORDS
+    if reader in SPACE_LOOKALIKES and rng.random() < 0.03:
+        w = rng.choice(SPACE_LOOKALIKES[reader])
+        return w, w, "unquoted:space-lookalike", False
     if reader == "default" and rng.random() < 0.07:
         w = rng.choice(DIGIT_LOOKALIKES)
         return w, w, "unquoted:digit-lookalike", False
